@@ -325,6 +325,10 @@ P["C11"]["units"] += [
            extra_sources=["libjwt/base64.c"], stubs=["stubs/alloc.c", "stubs/ghost.c"], defines=["VERIF_ALLOC_NEVER_FAILS"]),
 ]
 
+STRCMP_BOUNDED = finite("C02.bounded.jwt_strcmp_N90", "jwt_strcmp (libjwt/jwt-memory.c): every pair of strings of at most 90 characters",
+    "libjwt/jwt-memory.c", "harness/strcmp_bounded.c", "h_strcmp_bounded", 92, ["h_strcmp_bounded\\.assertion\\.1"],
+    defines=["STRCMP_N=90"], kind="bounded", bound="both strings <= 90 characters (loops unwound 92 times, unwinding assertions on)", timeout=900)
+STRCMP_BOUNDED["flags"] = []
 # =============================== C15 =======================================
 SETGET_C = "libjwt/jwt-setget.c"
 SETGET_STUBS = LIBC + ["stubs/jansson.c", "stubs/alloc.c"]
@@ -535,6 +539,10 @@ P["C04"]["units"].append(cfg_unit("C04", "CHECKER", "jwt_checker_time_leeway", "
              "jwt_checker_t *c; jwt_claims_t cl; time_t s; jwt_checker_time_leeway(c, cl, s);", dict(R_CFG, args=["fn=leeway"])))
 P["C13"] = {"property": "C13", "level": "proof", "units": [gen_top(), top("C13")]}
 P["C17"] = {"property": "C17", "level": "proof", "units": [gen_top()]}
+for _side, _fn in (("BUILDER", "jwt_builder_new"), ("CHECKER", "jwt_checker_new")):
+    P["C17"]["units"].append(U("C17.%s" % _fn, "%s (libjwt/jwt-common.c)" % _fn, common_tu(_side), "contracts/jwt_common_c.h",
+        "%s();" % _fn, "%s/contract_C17_cmd_new" % _fn, stubs=LIBC + ["stubs/alloc.c", "stubs/jansson.c"], defines=["VERIF_TU_" + _side],
+        flags=[], expect=["contract_C17_cmd_new\\.postcondition\\.2"], timeout=300))
 P["C03"]["units"].append(gen_top())
 P["C14"]["units"].append(gen_top())
 for _p in ("C01", "C02", "C03", "C04", "C06", "C09", "C14"):
@@ -607,6 +615,42 @@ P["C09"]["units"] += [dict(jwkp_unit("C07", "openssl_process_rsa"), name="C09.op
                       dict(P["C08"]["units"][0], name="C09.process_octet")]
 
 # ---------------------------------------------------------------------------
+# cross-listing: a unit decides a clause every property that depends on that function needs
+# (modular verification: each property's list must contain every function between the
+# property and the code that implements it)
+def _find(name):
+    for spec in P.values():
+        for u in spec["units"]:
+            if u["name"] == name:
+                return u
+    raise KeyError(name)
+def share(prop, names):
+    have = set(u["name"] for u in P[prop]["units"])
+    for n in names:
+        if n not in have:
+            P[prop]["units"].append(_find(n))
+P["C02"]["units"].append(STRCMP_BOUNDED)
+share("C01", ["C02.jwt_strcmp_exact", "C02.bounded.jwt_strcmp_N90"])
+share("C03", ["C02.jwt_strcmp_exact", "C02.bounded.jwt_strcmp_N90", "C02.jwt_str_alg", "C02.jwt_parse_head", "C10.jwt_encode"])
+share("C05", ["C10.jwt_encode", "TOP.jwt_builder_generate", "TOP.jwt_checker_verify", "C11.jwt_base64uri_encode", "C11.jwt_base64uri_decode",
+              "C11.base64_encode.shape", "C11.base64_decode", "C11.finite.roundtrip3", "C01.openssl_verify_sha_pem", "C01.gnutls_verify_sha_pem"])
+share("C06", ["C14.jwt_parse_head", "C14.jwt_parse_payload", "C11.jwt_base64uri_decode", "C11.base64_decode", "C11.finite.reject",
+              "C01.all.jwt_verify_sig", "C01.all._verify_sha_hmac", "C01.jwt_verify_complete", "C01.openssl_verify_sha_pem", "C01.gnutls_verify_sha_pem",
+              "C02.jwt_str_alg", "C02.jwt_strcmp_exact"])
+share("C17", ["C17.jwt_builder_new", "C17.jwt_checker_new", "C05.jwt_ec_d2i", "C05.openssl_sign_sha_pem", "C05.gnutls_sign_sha_pem",
+              "C01.openssl_verify_sha_pem", "C01.gnutls_verify_sha_pem", "C01.openssl_sign_sha_hmac", "C01.gnutls_sign_sha_hmac",
+              "C08.process_octet", "C07.openssl_process_rsa", "C07.openssl_process_ec", "C07.openssl_process_eddsa", "C08.jwk_process_values",
+              "C10.jwt_encode", "C11.jwt_base64uri_encode", "C11.jwt_base64uri_decode", "C15.__setter", "C15.__setter_json", "C15.__getter",
+              "C14.jwt_parse_head", "C14.jwt_parse_payload", "TOP.jwt_checker_verify", "C06.bounded.jwt_parse_N12"])
+P["C18"] = {"property": "C18", "level": "proof", "units": []}
+share("C18", ["TOP.jwt_checker_verify", "TOP.jwt_builder_generate", "C01.all.jwt_sign", "C01.all._verify_sha_hmac", "C01.all.jwt_verify_sig",
+              "C01.all.__check_hmac", "C01.all.__check_key_bits", "C01.jwt_verify_complete", "C01.all.__verify_config_post", "C04.__verify_claims",
+              "C01.openssl_sign_sha_hmac", "C01.openssl_verify_sha_pem", "C05.openssl_sign_sha_pem", "C05.jwt_ec_d2i",
+              "C01.gnutls_sign_sha_hmac", "C01.gnutls_verify_sha_pem", "C05.gnutls_sign_sha_pem", "C10.jwt_encode",
+              "C14.jwt_parse_head", "C14.jwt_parse_payload", "C06.bounded.jwt_parse_N12", "C16.bounded.read_N3"])
+share("C09", ["C08.jwk_process_values"])
+share("C07", ["C08.jwk_process_values", "C08.jwk_key_op_j", "C08.process_octet"])
+
 def main():
     for prop, spec in P.items():
         with open(os.path.join(HERE, prop + ".json"), "w") as f:
